@@ -246,6 +246,9 @@ impl Prop for C19 {
         let pop = case.param("pop").unwrap_or("identity").to_string();
         let ridx = case.param_u64("replay_op_idx").unwrap_or(0) as usize;
         let mut o = RunOut::pass();
+        if st.batch > 1 {
+            o.count(&format!("schedule.late-loop-{}ms-per-iteration", st.batch), 1);
+        }
         o.count(&format!("pop.{pop}"), 1);
         o.count(&format!("behaviour.{}", case.param("behaviour").unwrap_or("?")), 1);
         let mut sig = fnv(0, case.cfg.as_bytes());
